@@ -50,4 +50,14 @@ CountOK(w, D, counts) ==
          /\ (w[i] = 0) => counts[i] = 0
          /\ counts[i] * S - D * w[i] < 2 * S
          /\ D * w[i] - counts[i] * S < 2 * S
+
+\* ---- selections at the full precision of the numeric type (Trace_C09!PickWide): the canonical number is x / B^n for an integer x given by
+\* n limbs b[1] (least significant) .. b[n] in base B; Q = floor((x * S + add * B^o) / B^n) by a carry chain that never needs more than
+\* B * S + add in one step; the owner of x / B^n is the first channel i with Cum(w, i) > floor(x * S / B^n)
+LimbQ(b, S, o, add, B) ==
+    LET n == Len(b)
+        C[i \in 0 .. n] == IF i = 0 THEN 0 ELSE (b[i] * S + C[i - 1] + (IF i = o + 1 THEN add ELSE 0)) \div B
+    IN C[n]
+LimbValue(b, B) == LET F[i \in 0 .. Len(b)] == IF i = 0 THEN 0 ELSE F[i - 1] * B + b[Len(b) + 1 - i] IN F[Len(b)]
+FirstAbove(w, q) == LET c == {i \in 1 .. Len(w) : Cum(w, i) > q} IN IF c = {} THEN 0 ELSE CHOOSE i \in c : \A k \in c : i <= k   \* (0: beyond one)
 =============================================================================
